@@ -4,8 +4,8 @@ use crate::wal::block::Block;
 #[cfg(target_os = "linux")]
 use crate::wal::block::Metadata;
 use crate::wal::config::{
-    DEFAULT_BLOCK_SIZE, FsyncSchedule, MAX_BATCH_BYTES, MAX_BATCH_ENTRIES, PREFIX_META_SIZE,
-    debug_print,
+    DEFAULT_BLOCK_SIZE, FsyncSchedule, MAX_ALLOC, MAX_BATCH_BYTES, MAX_BATCH_ENTRIES,
+    MAX_FILE_SIZE, PREFIX_META_SIZE, debug_print,
 };
 #[cfg(target_os = "linux")]
 use crate::wal::config::{USE_FD_BACKEND, checksum64};
@@ -58,6 +58,58 @@ impl Writer {
             fsync_schedule,
             is_batch_writing: AtomicBool::new(false),
         }
+    }
+
+    /// Validation that does not depend on writer state. Running it before a
+    /// writer (and its first block) exists means a rejected append leaves no
+    /// trace: no allocated-but-empty block, no block sealed ahead of a failure.
+    pub(super) fn precheck(col: &str, batch: &[&[u8]]) -> std::io::Result<()> {
+        if batch.len() > MAX_BATCH_ENTRIES {
+            return Err(std::io::Error::new(
+                std::io::ErrorKind::InvalidInput,
+                format!("batch exceeds {} entry limit", MAX_BATCH_ENTRIES),
+            ));
+        }
+        let total_bytes: u64 = batch
+            .iter()
+            .map(|data| (PREFIX_META_SIZE as u64) + (data.len() as u64))
+            .sum();
+        if total_bytes > MAX_BATCH_BYTES {
+            return Err(std::io::Error::new(
+                std::io::ErrorKind::InvalidInput,
+                "batch exceeds 10GB limit",
+            ));
+        }
+        for data in batch {
+            let need = (PREFIX_META_SIZE as u64) + (data.len() as u64);
+            let alloc_size = need.div_ceil(DEFAULT_BLOCK_SIZE) * DEFAULT_BLOCK_SIZE;
+            if need > MAX_ALLOC || alloc_size > MAX_FILE_SIZE {
+                return Err(std::io::Error::new(
+                    std::io::ErrorKind::InvalidInput,
+                    "invalid allocation size, a single entry can't be more than 1gb",
+                ));
+            }
+        }
+        // The entry header (which embeds the topic name) must fit its fixed slot.
+        let probe = crate::wal::block::Metadata {
+            read_size: 0,
+            owned_by: col.to_string(),
+            next_block_start: 0,
+            checksum: 0,
+        };
+        let meta_bytes = rkyv::to_bytes::<_, 256>(&probe).map_err(|e| {
+            std::io::Error::new(
+                std::io::ErrorKind::Other,
+                format!("serialize metadata failed: {:?}", e),
+            )
+        })?;
+        if meta_bytes.len() > PREFIX_META_SIZE - 2 {
+            return Err(std::io::Error::new(
+                std::io::ErrorKind::InvalidData,
+                "metadata too large",
+            ));
+        }
+        Ok(())
     }
 
     pub(super) fn write(&self, data: &[u8]) -> std::io::Result<()> {
